@@ -367,6 +367,8 @@ Definition define (tb : table) (name : token) (l : list token) : res (table * to
       else Ok (false, [], t, l1) in
     match hdr with
     | Ok (func, ps, t0, l0) =>
+        (* the __VA_ARGS__ test also runs for the FIRST replacement token, before the loop *)
+        if is_kind KIdent t0 && str_eqb (lit t0) s_vaargs && negb (macrovarargs func ps) then Err EVaArgs else
         match body_loop func l0 t0 ps (macroparam ps t0) [] with
         | Ok (ps', body, tend, rest) =>
             let m := mkMacro func (lit name) false ps' [] body in
